@@ -23,8 +23,8 @@ import (
 // in-process gateway (loopback httptest server) decodes every push it receives; once Run.Do has
 // returned, the LAST push that arrived must carry exactly the final result's counts per result label
 // and one setup sample. Short runs only see the push after setup and the final one; "long" runs
-// (5.2-5.6 s) also see the periodic 5 s push, which the gateway answers slowly so that it is still in
-// flight when the run ends.
+// (5.15-5.5 s) also see the periodic 5 s push, which the gateway answers after 0.7 s so that it is still in
+// flight when the run ends; nothing more may reach the gateway in the 5.9 s after the run.
 
 type pushSeen struct {
 	ordinal   int
@@ -99,7 +99,7 @@ func TestProp_PushedMetrics(t *testing.T) {
 		setupFails := !long && rapid.IntRange(0, 5).Draw(rt, "setupFails") == 0
 		g := &gateway{}
 		if long {
-			g.slowNth, g.delay = 2, 1500*time.Millisecond // push #1 follows setup, #2 is the periodic one
+			g.slowNth, g.delay = 2, 700*time.Millisecond // push #1 follows setup, #2 is the periodic one
 		}
 		srv := httptest.NewServer(g)
 		defer srv.Close()
@@ -121,7 +121,7 @@ func TestProp_PushedMetrics(t *testing.T) {
 		spec.Opts.Concurrency = conc
 		spec.Opts.IgnoreDropped = true
 		if long {
-			spec.Opts.MaxDuration = time.Duration(rapid.IntRange(5200, 5600).Draw(rt, "durationMs")) * time.Millisecond
+			spec.Opts.MaxDuration = time.Duration(rapid.IntRange(5150, 5500).Draw(rt, "durationMs")) * time.Millisecond
 		} else {
 			spec.Opts.MaxDuration = 10 * time.Second
 			spec.Opts.MaxIterations = uint64(rapid.IntRange(1, 60).Draw(rt, "iterations"))
@@ -134,6 +134,17 @@ func TestProp_PushedMetrics(t *testing.T) {
 		g.mu.Lock()
 		pushes := append([]pushSeen{}, g.pushes...)
 		g.mu.Unlock()
+		if long {
+			// the periodic refresh belongs to the run: one refresh interval (5 s) after Do returned the
+			// gateway has heard nothing more
+			time.Sleep(5900 * time.Millisecond)
+			g.mu.Lock()
+			later := len(g.pushes) - len(pushes)
+			g.mu.Unlock()
+			if later > 0 {
+				rt.Fatalf("VERIF-VIOLATION C16: %d push(es) reached the gateway in the 5.9 s after Run.Do had returned - metrics of a finished run are still being exported (users c=%d long run of %s)", later, conc, spec.Opts.MaxDuration)
+			}
+		}
 		desc := fmt.Sprintf("users c=%d failEvery=%d long=%v setupFails=%v max-duration=%s max-iterations=%d", conc, failEvery, long, setupFails, spec.Opts.MaxDuration, spec.Opts.MaxIterations)
 		cls := []string{}
 		if long {
